@@ -1,6 +1,8 @@
-(** C04 — every returned solution is a valid, complete reconciliation.
-    Proved here for the plain solvers, with no hypothesis on the unit costs. *)
-From Coq Require Import List Bool ZArith.
+(** C04 — every returned solution is a valid, complete reconciliation of finite cost.
+    No hypothesis on the unit costs anywhere in this file beyond "the transfer cost is not -inf"
+    ([nn (c_hgt c)]: it is a finite integer or +inf): the finite unit costs are arbitrary integers,
+    no coherence condition, the transfer cost may be +inf. *)
+From Coq Require Import List Bool ZArith Lia.
 From SR Require Import Base.PathB Base.Ext Model.Entry Model.Recon Model.LcaRec Model.Thl
   Proofs.ReconProofs Proofs.LcaProofs Proofs.ExhProofs Proofs.ThlProofs Proofs.ThlFinal.
 Import ListNotations.
@@ -25,8 +27,8 @@ Theorem C04_valid_lca : forall S O, leaves_ok S O -> valid_rec S O (lca_rec O).
 Proof. intros S O L. exact (proj1 (lca_valid S O L)). Qed.
 Print Assumptions C04_valid_lca.
 
-(* a valid reconciliation without transfer has a finite cost; with transfers the cost is finite
-   as soon as the transfer cost is *)
+(* a valid reconciliation has a finite cost as soon as the transfer cost is finite (whether or not
+   it contains a transfer); the case of an infinite transfer cost is [C04_finite_*] below *)
 Theorem C04_finite_cost : forall c S O r, valid_rec S O r -> c_hgt c <> PInf -> nn (c_hgt c) ->
   exists z, cost c O r = Fin z.
 Proof.
@@ -64,3 +66,98 @@ Theorem C04_valid_unordered : forall S c rp extended O, nn (c_hgt c) -> leaves_o
          exists g, anc g p = true /\ is_lca_of_carriers O f g /\ holds_on t f g p).
 Proof. exact uspfs_valid_full. Qed.
 Print Assumptions C04_valid_unordered.
+
+(** ** "has finite cost", for every cost vector including an infinite transfer cost
+    (Proofs/FiniteCostProofs.v).  With [c_hgt c = PInf] a valid reconciliation that contains a
+    transfer costs +inf, so these theorems also say that no returned solution contains a transfer then.
+    The cost of every returned solution is the value of the result entry. *)
+From SR Require Import Proofs.FiniteCostProofs.
+
+Theorem C04_finite_lca : forall c S O, leaves_ok S O -> cost c O (lca_rec O) = Fin (costDL c (lca_rec O)).
+Proof. exact lca_finite. Qed.
+Print Assumptions C04_finite_lca.
+
+Theorem C04_finite_thl : forall S c rp O r, nn (c_hgt c) -> leaves_ok S O ->
+  In r (tags (reconcile_thl S c rp O)) ->
+  exists z, cost c O r = Fin z /\ val (reconcile_thl S c rp O) = Fin z.
+Proof. exact thl_finite. Qed.
+Print Assumptions C04_finite_thl.
+
+Theorem C04_finite_exhaustive : forall S c rp O r, nn (c_hgt c) -> leaves_ok S O ->
+  In r (tags (reconcile_exhaustive c rp O)) ->
+  exists z, cost c O r = Fin z /\ val (reconcile_exhaustive c rp O) = Fin z.
+Proof. exact exh_finite. Qed.
+Print Assumptions C04_finite_exhaustive.
+
+(* base/extended SPFS: the evaluator does not fail on a returned solution ([Some]) and its total cost is finite *)
+Theorem C04_finite_ordered : forall S c rp extended orders O e lt, nn (c_hgt c) -> orders_ok S O orders ->
+  spfs S c rp extended orders O = Some e -> In lt (tags e) ->
+  exists z, total_cost c O true lt = Some (Fin z) /\ val e = Fin z.
+Proof. exact spfs_finite. Qed.
+Print Assumptions C04_finite_ordered.
+
+(* base/extended USPFS *)
+Theorem C04_finite_unordered : forall S c rp extended O E t, nn (c_hgt c) -> leaves_ok S O ->
+  uspfs S c rp extended O = Some E -> In t (tags E) ->
+  exists z, total_cost c O false t = Some (Fin z) /\ ucost c O t = Fin z /\ val E = Fin z.
+Proof. exact uspfs_finite. Qed.
+Print Assumptions C04_finite_unordered.
+
+(** ** inputs with polytomies (extended solvers; Model/Poly.v, Proofs/PolyBoundProofs.v): every returned
+    tag (index of a refinement pair, labelled tree) is a valid solution of that pair of binary
+    refinements of the two input trees, with the leaf data found by name; the evaluator does not fail
+    on it and its cost is finite and is the value of the result.  Any policy, any unit costs.
+    (What "refines" guarantees -- binary, same clades, names and colours kept -- is C08.) *)
+From SR Require Import Model.Binarize Model.Poly Proofs.BinarizeProofs Proofs.PolyProofs Proofs.PolyBoundProofs.
+
+Theorem C04_valid_poly_ordered : forall c ld o s, nn (c_hgt c) ->
+  forall rp e i lt, poly_wf nonempty_syn ld o s ->
+  spfs_poly c rp ld o s = Some e -> In (i, lt) (tags e) ->
+  exists ob sb p ord, tag_pair o s (i, lt) = Some (ob, sb) /\ refines o ob /\ refines s sb /\
+    pair_input ld (ob, sb) = Some p /\ Spfs.root_orders (snd p) <> None /\ In ord (orders_of (snd p)) /\
+    valid_ordered (fst p) ord (snd p) lt /\
+    exists z, total_cost c (snd p) true lt = Some (Fin z) /\ val e = Fin z.
+Proof. exact poly_solutions_valid_ordered. Qed.
+Print Assumptions C04_valid_poly_ordered.
+
+Theorem C04_valid_poly_unordered : forall c ld o s, nn (c_hgt c) ->
+  forall rp e i t, poly_wf any_syn ld o s ->
+  uspfs_poly c rp ld o s = Some e -> In (i, t) (tags e) ->
+  exists ob sb p, tag_pair o s (i, t) = Some (ob, sb) /\ refines o ob /\ refines s sb /\
+    pair_input ld (ob, sb) = Some p /\ uvalid (fst p) (snd p) t /\
+    exists z, total_cost c (snd p) false t = Some (Fin z) /\ val e = Fin z.
+Proof. exact poly_solutions_valid_unordered. Qed.
+Print Assumptions C04_valid_poly_unordered.
+
+(** ** non-vacuity.  An INCOHERENT cost vector with an infinite transfer cost (spe = 5 > dup + 2 floss = 2):
+    the hypotheses of every theorem of this file hold and the results are not empty, so the
+    "for every returned solution" statements are about something. *)
+Example C04_example_plain :
+  let S := SNode SLeaf (SNode SLeaf (SNode SLeaf SLeaf)) in
+  let O := ONode (OLeaf [false] []) (ONode (OLeaf [true; true; true] [])
+                 (ONode (OLeaf [true; false] []) (OLeaf [true; true; false] []))) in
+  let c := {| c_spe := 5; c_dup := 0; c_hgt := PInf; c_floss := 1; c_sloss := 0 |} in
+  nn (c_hgt c) /\ leaves_ok S O /\ ~ (c_spe c <= c_dup c + 2 * c_floss c)%Z /\
+  (length (tags (reconcile_thl S c RALL O)) = 1 /\ val (reconcile_thl S c RALL O) = Fin 13) /\
+  (length (tags (reconcile_exhaustive c RALL O)) = 1 /\ val (reconcile_exhaustive c RALL O) = Fin 9) /\
+  cost c O (lca_rec O) = Fin 13.
+Proof.
+  cbv zeta. split; [discriminate|]. split; [cbn; tauto|]. split; [cbn; lia|]. repeat split; vm_compute; reflexivity.
+Qed.
+
+Example C04_example_labelled :
+  let S := SNode SLeaf (SNode SLeaf SLeaf) in
+  let O := ONode (OLeaf [false] [1; 2]%N) (ONode (OLeaf [true; false] [2; 3]%N) (OLeaf [true; true] [1; 3]%N)) in
+  let c := {| c_spe := 5; c_dup := 0; c_hgt := PInf; c_floss := 1; c_sloss := 2 |} in
+  nn (c_hgt c) /\ orders_ok S O [[1; 2; 3]%N] /\ leaves_ok S O /\
+  option_map (fun e => (val e, length (tags e))) (spfs S c RALL true [[1; 2; 3]%N] O) = Some (Fin 16, 1) /\
+  option_map (fun e => (val e, length (tags e))) (spfs S c RALL false [[1; 2; 3]%N] O) = Some (Fin 16, 1) /\
+  option_map (fun e => (val e, length (tags e))) (uspfs S c RALL true O) = Some (Fin 14, 1) /\
+  option_map (fun e => (val e, length (tags e))) (uspfs S c RALL false O) = Some (Fin 14, 1).
+Proof.
+  cbv zeta. split; [discriminate|]. split; [|split; [cbn; tauto|repeat split; vm_compute; reflexivity]].
+  refine (proj1 (root_orders_ok _ _ _ _ _)); [cbn; repeat split; discriminate|vm_compute; reflexivity].
+Qed.
+
+(* polytomies: the 4-leaf star over a 3-leaf star of C08 (45 refinement pairs) satisfies [poly_wf] *)
+Example C04_example_poly := poly_example.
